@@ -46,7 +46,7 @@ func (dm *defaultMkdirerSimple) mkdir(roots []*Node) error {
 
 func (dm *defaultMkdirerSimple) isExistRoot(roots []*Node) bool {
 	for _, root := range roots {
-		if _, err := os.Stat(filepath.Join(dm.targetDir, root.path())); !os.IsNotExist(err) {
+		if _, err := os.Lstat(filepath.Join(dm.targetDir, root.path())); !os.IsNotExist(err) {
 			return true
 		}
 	}
